@@ -14,7 +14,7 @@ sys.path.insert(0, os.path.join(os.path.dirname(os.path.abspath(__file__)), ".."
 import vlib
 
 SCHEMA = os.path.join(vlib.ROOT, "schemas", "c21.json")
-DEVS = ["DevListNotRedacted", "DevUntypedInlineLosesType", "DevVarDefaultPrinted"]
+CODES = {"L": "DevListNotRedacted", "U": "DevUntypedInlineLosesType", "D": "DevVarDefaultPrinted"}
 
 
 def cfg_text(steps, budget, listlen, styles, tail):
@@ -23,21 +23,9 @@ def cfg_text(steps, budget, listlen, styles, tail):
             (steps, budget, listlen, ", ".join('"%s"' % s for s in styles), tail))
 
 
-def sentinels(v, out):
-    """every sentinel leaf of an abstract value: (sid, text as the printer writes it)"""
-    if isinstance(v, dict):
-        if "sid" in v and v.get("k") in ("str", "int"):
-            out[v["sid"]] = v["v"]
-        for x in v.values():
-            sentinels(x, out)
-    elif isinstance(v, list):
-        for x in v:
-            sentinels(x, out)
-
-
 def body(c):
     if c.quick:
-        bounds = (2, 1, 2, ["anon", "namedAlias"])
+        bounds = (2, 1, 1, ["anon", "namedAlias"])
     else:
         bounds = (3, 2, 2, ["anon", "named", "anonAlias", "namedAlias"])
     gcfg = c.path("Gen.cfg")
@@ -76,6 +64,9 @@ def body(c):
     nsent = 0
     for o in obs:
         vd, drift, nleaked, nsecret = verdicts[o["id"]]
+        if vd.startswith("k:"):
+            vd = "known:" + ",".join(sorted(CODES[x] for x in vd[2:].split(",")))
+            verdicts[o["id"]] = (vd, drift, nleaked, nsecret)
         if vd.startswith("invalid:"):
             raise vlib.ToolError("case %s is not a valid probe (%s): %s vars=%s errors=%s" % (o["id"], vd, o["text"], json.dumps(o["vars"]), o["obs"]["errors"][:2]))
         nsent += nsecret
